@@ -69,6 +69,7 @@ package pipeline
 //@   ensures inv: pendingOK(s)
 //@   ensures innow: !called(Context.Err) && old(item.sequenceNumber == s.nextSequence) ==> err == nil && len(processed) >= 1 && processed[0] == item
 //@   ensures advance: !called(Context.Err) && old(item.sequenceNumber == s.nextSequence) ==> s.nextSequence == old(s.nextSequence) + uint64(len(processed))
+//@   ensures offered: !called(Context.Err) && old(item.sequenceNumber == s.nextSequence) ==> called(maybeApply) && called(applyPending)
 //@   ensures inorder: forall i int :: 0 <= i && i < len(processed) ==> processed[i] != nil && processed[i].sequenceNumber == old(s.nextSequence) + uint64(i)
 //@   ensures buffered: !called(Context.Err) && old(item.sequenceNumber != s.nextSequence) ==> len(processed) == 0 && s.nextSequence == old(s.nextSequence) &&
 //@       item.sequenceNumber in s.pending && s.pending[item.sequenceNumber] == item
